@@ -38,7 +38,8 @@ RULE = ("a scenario = one callee/caller pair (transport and serializer chosen pe
         "with 5 exception types, falsy instance, formatting, ApplicationError subclass, fixed-URI ApplicationError subclass; "
         "@wamp.error-decorated + define(cls), define(cls, uri), decorated but not define()d, undefined, subclass of a "
         "registered class, define()d subclass of a define()d class, decorated subclass of a decorated class) registered at both sides / callee only / caller only / "
-        "different classes per side under URIs that are prefixes, extensions and truncations of each other + 6-10 calls "
+        "different classes per side, or only BETWEEN two calls (raise -> define -> raise, define -> raise -> re-define -> raise, ERROR -> define -> ERROR -> "
+        "define another class -> ERROR) under URIs that are prefixes, extensions and truncations of each other + 6-10 calls "
         "whose endpoint raises synchronously, from an inlineCallbacks/async-def body, or rejects a pending future later in "
         "shuffled order: instances of the generated classes, ApplicationError with arbitrary (loose) URIs incl. neighbours "
         "of registered URIs, library TypeCheckError, builtin exceptions, plus ERRORs of a foreign (non-Python) callee made "
@@ -50,7 +51,7 @@ ASSUMPTIONS = [
     "the exception's keyword arguments are its `kwargs` dict attribute (the library's convention); classes without one carry none",
     "keyword names reserved by ApplicationError/CallResult (enc_algo, callee, callee_authid, callee_authrole, forward_for) are never used; with traceback_app the name `traceback` is not used by the workload and kwargs may gain exactly that key",
     "admitted normalisations: tuple == list, absent args/kwargs == empty, -0.0 == 0.0; JSON: no strings starting with U+0000, no NaN/inf/subnormal floats",
-    "classes are registered under URIs uri.Pattern accepts ([a-z0-9][a-z0-9_-]* components or <name>); define() is never called against its contract (decorated class with explicit URI, undecorated without); at most one class per URI and side",
+    "classes are registered under URIs uri.Pattern accepts ([a-z0-9][a-z0-9_-]* components or <name>); define() is never called against its contract (decorated class with explicit URI, undecorated without); the latest class define()d for a URI is the class registered for it, a class re-define()d under a second URI may go out under any URI registered for it (no registration is ever withdrawn)",
     "an instance of ApplicationError or of a subclass carries the URI its raiser chose: the wire URI must equal exc.error whether or not the class is also decorated/define()d",
     "chained scenarios: FRONT and MID register no classes (MID re-raises the generic ApplicationError it got), the two library-pre-registered URIs are not used as origin URIs there; the content of `traceback` is never asserted",
     "grey zones accepted both ways: a decorated but not define()d class, also by inheritance of the decoration (decorated URI or runtime_error), presence of `traceback` when traceback_app is on; an undecorated, not define()d subclass of a define()d class is an unregistered class (runtime_error)",
@@ -65,6 +66,9 @@ DECIDING = {
     "wire_uri_runtime_error": 20,
     "wire_uri_carried": 20,
     "wire_uri_carried_differs_from_registered": 10,
+    "wire_uri_after_define_following_a_raise": 20,
+    "wire_uri_after_redefinition": 10,
+    "caller_class_after_define_following_an_error": 20,
     "chain_end_to_end_compared": 100,
     "chain_traceback_combinations": 4,
     "chain_traceback_added_on_both_hops": 10,
@@ -312,7 +316,70 @@ def gen_scenario(rng, cfg):
             steps.append(["fire", later.pop(rng.randrange(len(later)))])
     rng.shuffle(later)
     steps += [["fire", i] for i in later]
-    return {"cfg": cfg, "classes": classes, "defines": defines, "calls": calls, "steps": steps,
+    # ---- registry CHANGES between calls (sessions keep defining classes while errors already flow)
+    late_defines = []
+    seqs = []
+    used = set(uris) | {c["deco"] for c in classes if c["deco"]}
+    free = [x for x in L.REG_URI_POOL if x not in used and x not in RegModel().uri_cls]
+    rng.shuffle(free)
+
+    def add_call(src, mode):
+        calls.append({"src": src, "mode": mode})
+        return len(calls) - 1
+
+    if len(free) >= 2 and rng.random() < 0.4:
+        # callee: raise E (undefined) -> define(E, u1) -> raise E [-> define(E, u2) -> raise E]; or define first
+        kind = rng.choice(["plain", "kw", "arity2", "kwonly", "picky", "falsy", "formatting", "arity0"])
+        ci = new_class(kind)
+        u1, u2 = free.pop(), free.pop()
+
+        def raise_e():
+            a, k = _payload_for(kind, gen, rng, cfg)
+            return ["call", add_call({"what": "class", "cls": ci, "args": L.enc(a), "kwargs": L.enc(k)}, rng.choice(["sync", "native"]))]
+
+        def define_e(u, also_caller):
+            late_defines.append(["callee", ci, u])
+            out = [["define", len(late_defines) - 1]]
+            if also_caller:
+                late_defines.append(["caller", ci, u])
+                out.append(["define", len(late_defines) - 1])
+            return out
+        both = rng.random() < 0.5
+        seq = []
+        if rng.random() < 0.7:
+            seq.append(raise_e())
+        seq += define_e(u1, both) + [raise_e()]
+        if rng.random() < 0.5:
+            seq += define_e(u2, both) + [raise_e()]
+        seqs.append(seq)
+    if free and rng.random() < 0.4:
+        # caller: ERROR u (no class) -> define(D1, u) -> ERROR u -> define(D2, u) -> ERROR u
+        u = free.pop()
+        k1 = rng.choice(L.CTOR_KINDS)
+        d1 = new_class(k1)
+        d2 = new_class(rng.choice([k for k in L.CTOR_KINDS if k != k1]))
+        for d in (d1, d2):
+            if classes[d]["kind"] == "appfixed":
+                classes[d]["fixed_uri"] = u
+
+        def error_u():
+            shape = rng.choice(["free", "kwonly", "arity2", "arity0", "picky"])
+            a, k = _payload_for("kw" if shape == "free" else shape, gen, rng, cfg, allow_error_kw=False, hostile=True)
+            if rng.random() < 0.5:
+                return ["call", add_call({"what": "foreign", "uri": u, "args": L.enc(a), "kwargs": L.enc(k)}, "foreign")]
+            return ["call", add_call({"what": "app", "uri": u, "args": L.enc(a), "kwargs": L.enc(k)}, rng.choice(["sync", "native"]))]
+        seq = [error_u()] if rng.random() < 0.7 else []
+        late_defines.append(["caller", d1, u])
+        seq += [["define", len(late_defines) - 1], error_u()]
+        if rng.random() < 0.6:
+            late_defines.append(["caller", d2, u])
+            seq += [["define", len(late_defines) - 1], error_u()]
+        seqs.append(seq)
+    for seq in seqs:                 # merged into the steps at random positions, order within a sequence kept
+        pos = sorted(rng.randrange(len(steps) + 1) for _ in seq)
+        for off, (p_, st) in enumerate(zip(pos, seq)):
+            steps.insert(p_ + off, st)
+    return {"cfg": cfg, "classes": classes, "defines": defines, "late_defines": late_defines, "calls": calls, "steps": steps,
             "payload_kinds": sorted(gen.kinds)}
 
 
@@ -362,7 +429,8 @@ class RegModel:
     """What a session has registered, by the documented meaning of @wamp.error + define(cls) and define(cls, uri)."""
 
     def __init__(self):
-        self.cls_uri = {}                 # class index -> URI
+        self.cls_uri = {}                 # class index -> URI of its latest registration
+        self.cls_all = {}                 # class index -> every URI it was registered under (none is ever withdrawn)
         self.uri_cls = {"wamp.error.invalid_payload": "lib:SerializationError",
                         "wamp.error.payload_size_exceeded": "lib:PayloadExceededError"}
 
@@ -370,7 +438,8 @@ class RegModel:
         u = class_specs[ci]["deco"] if uri is None else uri
         assert u
         self.cls_uri[ci] = u
-        self.uri_cls[u] = ci
+        self.cls_all.setdefault(ci, set()).add(u)
+        self.uri_cls[u] = ci              # the latest class registered for a URI is the class registered for it
 
 
 def _ancestors(ci, class_specs):
@@ -407,9 +476,10 @@ def expected_wire_uris(src, exc, callee_reg, class_specs):
         return {exc.error}, ("app-error-subclass-registered" if ci in callee_reg.cls_uri else "app-error-subclass")
     if ci in callee_reg.cls_uri:
         if cs["deco"]:
-            return {callee_reg.cls_uri[ci]}, ("registered-decorated-in-decorated-family" if in_decorated_family(ci, class_specs)
-                                              else "registered-decorated")
-        return {callee_reg.cls_uri[ci]}, "registered-define"
+            return set(callee_reg.cls_all[ci]), ("registered-decorated-in-decorated-family" if in_decorated_family(ci, class_specs)
+                                                 else "registered-decorated")
+        # re-defined under a second URI: any URI registered for the class satisfies the statement
+        return set(callee_reg.cls_all[ci]), "registered-define"
     s = {RUNTIME_ERROR}
     cat = "unregistered"
     if cs["deco"]:
@@ -507,6 +577,8 @@ def run_scenario(spec, R, fw, tag=""):
                 exp_payload[i] = (L.dec(L.enc(list(e.args))), L.dec(L.enc(dict(kw))) if isinstance(kw, dict) else {})
         judged_wire, judged_caller, forwarded = set(), set(), {}
         dead = False
+        raised_classes, redefined_after_raise = set(), set()          # registry changes between calls
+        uris_seen_at_caller, uris_defined_after_error = set(), set()
 
         def cls_name(x):
             if x is ApplicationError:
@@ -569,6 +641,11 @@ def run_scenario(spec, R, fw, tag=""):
                 viol("C18/callee/reply/details-not-a-dict", "ERROR details %r" % (m[3],), wire=L.brief(m))
             if src["what"] == "class":
                 R.seen("ctor_kinds_raised", class_specs[src["cls"]]["kind"])
+                if src["cls"] in redefined_after_raise and uri in uris:
+                    R.count("wire_uri_after_define_following_a_raise")
+                    if len(regs["callee"].cls_all.get(src["cls"], ())) > 1:
+                        R.count("wire_uri_after_redefinition")
+                raised_classes.add(src["cls"])
             judged_wire.add(i)
             return ok, cat
 
@@ -604,6 +681,8 @@ def run_scenario(spec, R, fw, tag=""):
             uri, wargs, wkwargs = forwarded[i]
             o = pair.outcomes[i]
             expectation, ecls, ref, facets = expect_at_caller(uri, wargs, wkwargs)
+            late = uri in uris_defined_after_error
+            uris_seen_at_caller.add(uri)
             # a URI that merely resembles a registered one must not be matched
             reg_uris = set(regs["caller"].uri_cls)
             if expectation == "generic-no-class" and any(uri != r and (uri.startswith(r) or r.startswith(uri) or uri.lower() == r.lower()
@@ -634,6 +713,8 @@ def run_scenario(spec, R, fw, tag=""):
                                                                                           getattr(err, "kwargs", None)]))
                 return False
             ok = True
+            if late:
+                R.count("caller_class_after_define_following_an_error")
             if expectation == "registered":
                 R.count("caller_registered_class_constructed")
                 want = (getattr(ref, "error", None), list(ref.args), getattr(ref, "kwargs", None))
@@ -689,6 +770,16 @@ def run_scenario(spec, R, fw, tag=""):
         for step, i in spec["steps"]:
             if dead or pair.side_down(pair.A, pair.a) or pair.side_down(pair.B, pair.b):
                 break
+            if step == "define":
+                side, ci, uri = spec["late_defines"][i]
+                sessions[side].define(classes[ci], uri)
+                regs[side].define(ci, class_specs, uri)
+                R.count("late_defines")
+                if side == "callee" and ci in raised_classes:
+                    redefined_after_raise.add(ci)
+                if side == "caller" and uri in uris_seen_at_caller:
+                    uris_defined_after_error.add(uri)
+                continue
             c = calls[i]
             if step == "call":
                 R.count("evaluations")
